@@ -17,6 +17,7 @@ import stmtprop
 from coqemit import cstr, copt, clist, cbool, cnat
 from genobj import QUERY_CLASSES, QNAMES
 import pypika_tortoise as P
+from pypika_tortoise import analytics as an
 from pypika_tortoise import queries as Q, terms as T, functions as fn
 from pypika_tortoise.dialects import PostgreSQLQuery, MySQLQuery, SQLLiteQuery, MSSQLQuery, OracleQuery
 
@@ -108,6 +109,9 @@ def programs(qc, rng, tier):
                 "select": lambda q: q.select(*[pg.col(s) for s in srcs if not star_src(s, srcs)], fn.Sum(pg.col(srcs[-1])).as_("agg"),
                                              *[pg.star(s) for s in srcs if star_src(s, srcs)],
                                              *[fn.Count(pg.star(s)) for s in srcs[:1] if isinstance(s, Q.Table) and s.alias]),
+                # columns inside a window: PARTITION BY, ORDER BY with and without a direction, FILTER
+                "window": lambda q: q.select(an.Rank().over(pg.col(srcs[0])).orderby(pg.col(srcs[-1]), order=P.enums.Order.desc).orderby(pg.col(srcs[0])),
+                                             fn.Sum(pg.col(srcs[-1])).filter(pg.col(srcs[0]) > 0)),
                 "where": lambda q: q.where((pg.col(srcs[0]) == 1) & (pg.col(srcs[-1]) > 2)),
                 "groupby": lambda q: q.groupby(pg.col(srcs[0]), fn.Lower(pg.col(srcs[-1]))),
                 "having": lambda q: q.having(fn.Max(pg.col(srcs[0])) > 3),
@@ -117,7 +121,8 @@ def programs(qc, rng, tier):
                 q = steps[k](q)
             return q, pg, (njoins, nfrom, isinstance(srcs[0], Q.QueryBuilder), False, False)
         return build
-    orders = [("select", "where", "groupby", "having", "orderby"), ("where", "orderby", "select", "groupby", "having"), ("groupby", "having", "select", "where", "orderby")]
+    orders = [("select", "window", "where", "groupby", "having", "orderby"), ("where", "orderby", "select", "groupby", "window", "having"),
+              ("groupby", "having", "window", "select", "where", "orderby")]
     for s0 in names:
         for s1 in [None] + names:
             for s2 in [None, "plain", "aliased", "from2"]:
@@ -237,11 +242,35 @@ def cases(run, rng):
                    "describe": {"class": QNAMES[qc], "program": label, "sql": s, "columns": [(c[0], c[1], c[2] if c[2] != "@sub" else c[4].alias, c[3]) for c in pg.cols]}}
 
 
+def distinct_qualifiers():
+    """'always by the right name': two row sources of one statement never share the name references are qualified with - automatic sub-query
+    aliases included, however many un-aliased sub-queries the statement takes and through whichever of from_() / join() they come"""
+    out = []
+    for qc in QUERY_CLASSES:
+        for n in (2, 3, 4):
+            for shape in itertools.product(("from", "join"), repeat=n - 1):
+                subs = [qc.from_(P.Table("s%d" % i)).select("a", "b") for i in range(n)]
+                try:
+                    q = qc.from_(subs[0])
+                    for how, sub in zip(shape, subs[1:]):
+                        q = q.from_(sub) if how == "from" else q.join(sub).on(T.Field("a", table=subs[0]) == T.Field("a", table=sub))
+                    q = q.select(*[T.Field("b", table=x) for x in subs])
+                    sql = q.get_sql(qc.SQL_CONTEXT)
+                except Exception:
+                    continue
+                names = [x.alias for x in subs]
+                if len(set(names)) != len(names) or any(a is None for a in names):
+                    out.append(("C11: two row sources of one statement share the qualifier name %r (%s sub-queries added by %s under %s): %s"
+                                % (names, n, "/".join(("from",) + shape), QNAMES[qc], sql[:300]),
+                                {"kind": "duplicate-qualifier", "class": QNAMES[qc], "calls": ("from",) + shape, "aliases": names, "sql": sql}))
+    return out
+
+
 def check(run: core.Run):
     rng = random.Random(run.seed)
     stmtprop.run_statement_property(
         run, prop="C11", propfile="Props/C11.v", module="Props.C11", theorems=THEOREMS, header=HEADER, cases=cases(run, rng),
-        what="the qualification rule", extra_targets=["Ref/Qualify.v"],
+        what="the qualification rule", extra_targets=["Ref/Qualify.v"], extra_violations=distinct_qualifiers(),
         rule="every program gives each column reference a unique name and records its source (table name, alias, exempt position); the implementation's text is lexed in Coq and "
              "every occurrence of a marked column must carry exactly the qualifier of the rule (Ref.Qualify: the alias of an aliased source always; the table name iff more than "
              "one row source is in scope - joins, several FROM items, sub-query in FROM, UPDATE..FROM, a WHERE that refers to a table outside the sources; nothing in INSERT columns, "
